@@ -3,6 +3,7 @@
 # For each: apply to /repo, run, copy the replay of the first violation next to the patch, undo. Prints a table.
 cd /verif || exit 2
 declare -A CHECKS=(
+ [C15d]="C15" [C05d]="C05" [C02d]="C02" [C03d]="C03" [C01d]="C01 C03" [C09d]="C09" [C11d]="C11 C05" [C04d]="C04 C01" [C13d]="C13 C18" [C18d]="C18"
  [C01]="C01 C03" [C01b]="C01 C03" [C02]="C02" [C02b]="C02 C03" [C03]="C03" [C03b]="C03 C01" [C04]="C04 C03" [C04c]="C04 C01"
  [C05]="C05" [C05b]="C05" [C06]="C06" [C06c]="C06" [C07]="C07" [C07c]="C07" [C08]="C08" [C08c]="C08" [C09]="C09" [C09b]="C09"
  [C10]="C10 C11" [C10c]="C10" [C11]="C11 C05" [C11b]="C11" [C12]="C12" [C12c]="C12" [C13]="C13" [C13c]="C13" [C14]="C14" [C14c]="C14"
